@@ -63,6 +63,11 @@ def cases():
         "the characters to trim and LEADING/TRAILING must survive the VARCHAR cast of the input")
     add("TRIM(CAST(x AS VARCHAR)) is left alone", "trim_cast_varchar",
         mk(lambda o: node("Trim", "stmt", this=node("Cast", this=op(o, "x"), to=dtype("VARCHAR")))), UNCHANGED, "already text")
+    add("TRIM(CAST(x AS TEXT)) is left alone", "trim_cast_varchar",
+        mk(lambda o: node("Trim", "stmt", this=node("Cast", this=op(o, "x"), to=dtype("TEXT")))), UNCHANGED, "STRING/TEXT casts are text already")
+    add("TRIM(CAST(x AS BIGINT)) still gets its VARCHAR cast", "trim_cast_varchar",
+        mk(lambda o: node("Trim", "stmt", this=op(o, "c", node("Cast", this=S("x"), to=dtype("BIGINT"))))),
+        lambda o, i: P("Trim", this=P("Cast", this=IS(o["c"]), to=P("DataType", this=ENUM("VARCHAR")))), "a cast to something else is not text")
     add("LATERAL FLATTEN(input => a) f -> LATERAL UNNEST(CAST(a AS JSON[])) f(VALUE)", "flatten",
         mk(lambda o: node("Lateral", "stmt", this=node("Explode", this=node("Kwarg", this=node("Var", this=Const("input")), expression=op(o, "x"))),
                           alias=node("TableAlias", this=op(o, "alias", NodeV("Identifier", {"this": Const("F"), "quoted": Const(False)}, open=False))))),
